@@ -29,6 +29,7 @@ func runC03(c *Ctx) {
 	c02DoRedo(c, "C03.6")
 	c02RecordDescribes(c, "C03.7")
 	c02RecoveryEnds(c, "C03.8")
+	ruleLogReader(c, "C03.9")
 }
 
 func c03Framing(c *Ctx, rule string) {
